@@ -69,7 +69,7 @@ def exc_class(e):
 
 # --------------------------------------------------------------------------- model mapping
 KIND = {'drop': 'KTransport', 'drop_body': 'KTransport', '500': 'K5xx', '503': 'K5xx', '500_after': 'K5xx', '429': 'K429',
-        '401': 'K401', 'expire': 'K401', '403': 'K403', 'oserror': 'KOs',
+        '401': 'K401', 'expire': 'K401', '403': 'K403', 'oserror': 'KOs', 'drop_after': 'KTransport', '408': 'K5xx',
         # B2 faults that stick to one upload URL / token pair: a client that asks for a fresh pair per try meets them once
         'expire_upload_tokens': 'K401', 'sick_pod': 'K5xx'}
 FL = {'local': 'FlLocal', 's3c': 'FlS3', 'b2': 'FlB2'}
@@ -86,7 +86,7 @@ def model_fault(case, f):
     elif upload:
         before = kind == 'drop'
         after = f.get('after', 0) if kind == 'drop_body' else 10 ** 3
-        applied = kind == '500_after'
+        applied = kind in ('500_after', 'drop_after')
     else:
         before = kind != 'drop_body'
         after = f.get('after', 0)
@@ -258,13 +258,13 @@ def run_http(case):
     rules = []
     for f in case['faults']:
         r = {'op': f.get('target') or PRIMARY[(backend_kind, m)], 'kind': f['kind'], 'count': 1}
-        if 'after' in f:
-            r['after'] = f['after']
+        r.update({k: f[k] for k in ('after', 'exc') if k in f})
         rules.append(r)
     if case.get('persistent'):
         rules[-1]['count'] = 10 ** 9
     svc.plan = fk.FaultPlan(rules)
     svc.log, svc.nrequests = [], 0
+    svc.seconds_per_piece = case.get('seconds_per_piece', 0)
     res = sync(_call(b, case, data))
     sync(b.close())
     obj = svc.objects.get(NAME)
@@ -424,7 +424,9 @@ class LocalInjector:
         f = self.current()
         if f is not None and f['target'] == target:
             self.fired += 1
-            raise OSError(errno.EIO, f'injected I/O error at {target}')
+            cls = {None: OSError, 'PermissionError': PermissionError, 'TimeoutError': TimeoutError, 'ConnectionResetError': ConnectionResetError,
+                   'BlockingIOError': BlockingIOError, 'InterruptedError': InterruptedError}[f.get('exc')]
+            raise cls(errno.EIO, f'injected I/O error at {target}')
 
     def mine(self, p):
         return os.fspath(p).startswith(self.root)
@@ -708,6 +710,53 @@ def sequence_cases(f):
     return cases
 
 
+def transport_class_cases(f):
+    """Every transport-level exception class httpx raises (and several OSError subclasses for local) at the three kinds of
+    position: before anything is sent, in the middle of a body, after the whole request took effect (connection closed
+    without an answer)."""
+    cases = []
+    c = 4
+    size = 2 * c + 1
+    for backend in ('s3c', 'b2'):
+        mt = f[{'s3c': 's3_max_tries', 'b2': 'b2_max_tries'}[backend]]
+        for method in ('upload_stream', 'download_stream', 'upload', 'download', 'delete', 'exists', 'list'):
+            read_only = method in ('download', 'download_stream', 'exists', 'list')
+            for exc in fk.TRANSPORT_ERRORS:
+                positions = [{'kind': 'drop', 'exc': exc}]
+                if method in ('upload_stream', 'download_stream', 'upload', 'download'):
+                    positions.append({'kind': 'drop_body', 'after': 1, 'exc': exc})
+                if not read_only:
+                    positions.append({'kind': 'drop_after', 'exc': exc})
+                for pos in positions:
+                    for L in (1, mt - 1, mt):
+                        cases.append({'backend': backend, 'method': method, 'size': size, 'chunk': c, 'faults': [dict(pos) for _ in range(L)]})
+    mt = f['local_max_tries']
+    for method in ('upload_stream', 'download_stream', 'upload', 'download', 'delete'):
+        for exc in ('PermissionError', 'TimeoutError', 'ConnectionResetError', 'BlockingIOError', 'InterruptedError'):
+            for t, k in local_targets(method, size, c):
+                for L in (1, mt):
+                    cases.append({'backend': 'local', 'method': method, 'size': size, 'chunk': c,
+                                  'faults': [{'target': t, 'kind': 'oserror', 'exc': exc, **({'after': k} if k is not None else {})} for _ in range(L)]})
+    return cases
+
+
+def slow_cases(f):
+    """Slow transfers: every body piece takes 10-40 virtual seconds (big object, thin link, --rate-limit), so one attempt
+    lasts minutes; the clock backoff reads is that virtual clock.  The retry budget is a number of tries: k < max_tries
+    faults are masked however long the attempts take."""
+    cases = []
+    c = 4
+    for backend in ('s3c', 'b2'):
+        mt = f[{'s3c': 's3_max_tries', 'b2': 'b2_max_tries'}[backend]]
+        for method in ('upload_stream', 'download_stream', 'upload', 'download'):
+            for spp in (10, 40):
+                for pos in ({'kind': 'drop_body', 'after': 2}, {'kind': '429'}, {'kind': 'drop'}, {'kind': '503'}):
+                    for L in range(1, mt + 1):
+                        cases.append({'backend': backend, 'method': method, 'size': 3 * c, 'chunk': c, 'seconds_per_piece': spp,
+                                      'faults': [dict(pos) for _ in range(L)]})
+    return cases
+
+
 def nested_cases(f):
     """B2: faults at the nested / auxiliary endpoints (fresh upload URL per try, authorisation, expired token).
     Not part of the Coq model: judged by the oracle only (masked within the budget, bounded otherwise)."""
@@ -840,7 +889,7 @@ def check_cases(cases, rep: Report, scratch: Path, f, with_model=True):
             res = execute(case, scratch)
             results.append(res)
             L = len(case['faults'])
-            rep.case((case['backend'], case['method'], case.get('concurrent'), case.get('authorize_delay'), case['size'], case['chunk'], case.get('old'), case.get('init'), case.get('piece'), case.get('prelude'),
+            rep.case((case['backend'], case['method'], case.get('seconds_per_piece'), case.get('concurrent'), case.get('authorize_delay'), case['size'], case['chunk'], case.get('old'), case.get('init'), case.get('piece'), case.get('prelude'),
                       [sorted(x.items()) for x in case['faults']]), nontrivial=res['fired'] >= 1)
             rep.count(f'{case["backend"]}:{case["method"]}')
             rep.count('run_length=' + (str(L) if L <= 6 else '>6'))
@@ -848,10 +897,15 @@ def check_cases(cases, rep: Report, scratch: Path, f, with_model=True):
             rep.count('outcome=' + res['outcome'].split(':')[0] + ('' if res['outcome'] == 'ok' else ':' + res['outcome'].split(':', 1)[1]))
             rep.count('size=' + str(case['size']))
             rep.count('prelude_ops=' + str(len(case.get('prelude', []))))
+            if case['faults'][0].get('exc'):
+                rep.count('exception_class=' + case['faults'][0]['exc'])
+            if case.get('seconds_per_piece'):
+                rep.count('slow_transfer_cases')
             if len(rep.samples) < 4 and res['fired'] >= 2:
                 rep.sample({'case': case, 'outcome': res['outcome'], 'tries': res['tries'], 'stream_pos': res['pos']})
             for what, kind in oracle(case, res, f):
-                rep.violations.append({'what': f'{case["backend"]}.{case["method"]} ({case["size"]} bytes, chunk {case["chunk"]}): {what}',
+                rep.violations.append({'what': f'{case["backend"]}.{case["method"]} ({case["size"]} bytes, chunk {case["chunk"]}'
+                                               + (f', every body piece taking {case["seconds_per_piece"]} s' if case.get('seconds_per_piece') else '') + f'): {what}',
                                        'signature': signature(case, kind), 'replay': {'case': case}})
     if with_model:
         modelled = [(c, r) for c, r in zip(cases, results) if not c.get('nested') and not c.get('persistent')]
@@ -894,7 +948,7 @@ def list_fault_probe(rep: Report, scratch: Path, f):
 RULE = ('case = (backend, method, payload size, chunk size, fault sequence): every fault position (before the first byte, after k '
         'stream chunks for every k, after the last) x kind (OSError per entry point; connection refused / dropped in mid-transfer, '
         '500, 503, 429+retry-after, 401, 403, 500 after the effect) x run length 1..max_tries+1, payloads 0, 1, chunk-1, chunk, '
-        'chunk+1, 3*chunk, plus random mixed sequences, multi-operation scenarios (fault-free prelude of the same client, then the faulted operation; B2 upload URL / token pairs expiring or their pod getting sick) B2 nested-endpoint / expired-token cases, and 2-8 operations in flight on one client while the token expires (slow re-authorisation) or stray faults occur; non-trivial = at least one fault fired; '
+        'chunk+1, 3*chunk, plus random mixed sequences, multi-operation scenarios (fault-free prelude of the same client, then the faulted operation; B2 upload URL / token pairs expiring or their pod getting sick) B2 nested-endpoint / expired-token cases, every httpx transport exception class (and OSError subclasses) at each kind of position, slow transfers on a virtual clock that backoff reads (10-40 s per body piece), and 2-8 operations in flight on one client while the token expires (slow re-authorisation) or stray faults occur; non-trivial = at least one fault fired; '
         'distinct = distinct case tuples')
 
 
@@ -907,7 +961,7 @@ def run(ctx) -> Report:
     rep = Report(rule=RULE)
     f = facts()
     chunks = [4, 2] if ctx.tier == 'quick' else [4, 1, 2, 7]
-    cases = corpus() + sequence_cases(f) + enumerate_cases(f, chunks, ctx.tier != 'quick')
+    cases = corpus() + sequence_cases(f) + transport_class_cases(f) + slow_cases(f) + enumerate_cases(f, chunks, ctx.tier != 'quick')
     cases += random_cases(ctx.rng, f, ctx.scale(600, 8000), [1, 2, 3, 4, 7] if ctx.tier != 'quick' else [2, 4, 5])
     cases += nested_cases(f) + persistent_cases(f) + concurrent_cases(f, ctx.rng, ctx.scale(40, 600))
     check_cases(cases, rep, ctx.scratch, f)
@@ -923,7 +977,7 @@ def search(ctx, broken) -> Report:
     rep = Report(rule=RULE)
     f = facts()
     seeds = [b['case']['case'] for b in broken if isinstance(b.get('case'), dict) and isinstance(b['case'].get('case'), dict)]
-    cases = seeds + enumerate_cases(f, [4, 1, 3], True) + random_cases(ctx.rng, f, 3000, [1, 2, 3, 4, 7]) + nested_cases(f) + persistent_cases(f) + sequence_cases(f) + concurrent_cases(f, ctx.rng, 400)
+    cases = seeds + enumerate_cases(f, [4, 1, 3], True) + random_cases(ctx.rng, f, 3000, [1, 2, 3, 4, 7]) + nested_cases(f) + persistent_cases(f) + sequence_cases(f) + transport_class_cases(f) + slow_cases(f) + concurrent_cases(f, ctx.rng, 400)
     check_cases(cases, rep, ctx.scratch, f, with_model=False)
     list_fault_probe(rep, ctx.scratch, f)
     return rep
